@@ -194,7 +194,13 @@ def run_history(rng, length):
             Stub.answer = (flag, x, pcost)
             with warnings.catch_warnings():
                 warnings.simplefilter('ignore')
-                st, val = prob.solve(solver='ECOS', verbose=False)
+                # solve options that only record things (cache_raw_output, cache_apply_data) do not change what a solve reports
+                extra = {}
+                if rng.random() < 0.35:
+                    extra['cache_raw_output'] = True
+                if rng.random() < 0.2:
+                    extra['cache_apply_data'] = True
+                st, val = prob.solve(solver='ECOS', verbose=False, **extra)
             why = oracle_step(prob, st, val, flag, x, pcost)
             if why is None:
                 for vw, par, ix in views:
@@ -348,6 +354,12 @@ def real_ecos_stream(ctx):
         if st == 'solver failure' and not (st2 == 'solved' and abs(val2 + 1.0) <= 1e-5 and np.all(np.isfinite(x.value))):
             fails.append('after solve(max_iters=1) failed, a plain solve() of the same Problem reports (%s, %r) with x = %r; expected (solved, -1)'
                          % (st2, val2, x.value.tolist()))
+        # ... also when the raw solver output is being recorded
+        stc, valc = prob.solve(solver='ECOS', verbose=False, max_iters=1, cache_raw_output=True)
+        std, vald = prob.solve(solver='ECOS', verbose=False, cache_raw_output=True)
+        if stc == 'solver failure' and not (std == 'solved' and abs(vald + 1.0) <= 1e-5 and np.all(np.isfinite(x.value))):
+            fails.append('after solve(max_iters=1, cache_raw_output=True) failed, solve(cache_raw_output=True) of the same Problem reports (%s, %r) with x = %r; '
+                         'expected (solved, -1)' % (std, vald, x.value.tolist()))
         st3, val3 = prob.solve(solver='ECOS', verbose=False, max_iters=1)
         st4, val4 = prob.solve(solver='ECOS', verbose=False, max_iters=200)
         if st3 == 'solver failure' and not (st4 == 'solved' and abs(val4 + 1.0) <= 1e-5):
